@@ -5,6 +5,7 @@ import (
 	"go/ast"
 	"go/types"
 	"regexp"
+	"sort"
 	"strconv"
 	"strings"
 
@@ -22,8 +23,8 @@ type classParse struct {
 	extract   ast.Stmt      // the loop that separates single members from ranges (range or counted loop)
 	extBody   []ast.Stmt
 	extractFd *ast.FuncDecl
-	classes   string  // the container Unicode class names are appended to, as written in readFd's normal form
-	extChars  string  // the containers of the extraction loop that end up in recv.Chars / recv.Ranges
+	classes   string // the container Unicode class names are appended to, as written in readFd's normal form
+	extChars  string // the containers of the extraction loop that end up in recv.Chars / recv.Ranges
 	extRanges string
 	iter      []bpath // normalised paths of one iteration of the reading loop
 	first     string  // text of the first rune read in an iteration
@@ -417,6 +418,10 @@ func classKeepsEveryRuneN(c *Ctx, rule string) {
 		bad = append(bad, "no path of the reading loop analysed")
 	}
 	r.Check(len(bad) == 0, rule, "G.ast.CharClassMatcher.parse:reading-loop-keeps-every-rune", "", g.Where(cp.readLoop.Pos()), fmt.Sprintf("%d paths, each stores exactly one member", n), strings.Join(uniq(bad), "; "))
+	// scratch accumulators (a bytes.Buffer or strings.Builder that collects the runes of one member): what an iteration
+	// reads back from one must be what that iteration wrote, not what an earlier member left behind
+	nobj, sbad := scratchBuffersClean(cp.iter)
+	r.Check(len(sbad) == 0, rule, "G.ast.CharClassMatcher.parse:scratch-buffer-clean-per-member", "", g.Where(cp.readLoop.Pos()), fmt.Sprintf("%d scratch buffers over %d iteration paths: each is reset (or new) before the first write of an iteration, or left reset by every iteration", nobj, len(cp.iter)), strings.Join(uniq(sbad), "; "))
 	bad = nil
 	paths := c.astNorm().normBlock(cp.extractFd, cp.extBody)
 	for _, p := range paths {
@@ -488,7 +493,10 @@ func classFlagsN(c *Ctx, rule string) {
 			}
 			continue // the class text ended before (empty class): nothing to invert
 		}
-		if !(minParens(inv) == minParens(wantInv) || (inv == "false" && empty)) {
+		// "starts with ^", by the library: the prefix test (which is false for the empty text, so no emptiness test is needed)
+		w1 := minParens(want1)
+		byLib := inv == `res1(strings.CutPrefix(`+w1+`,"^"))` || inv == `strings.HasPrefix(`+w1+`,"^")`
+		if !(minParens(inv) == minParens(wantInv) || (inv == "false" && empty) || byLib) {
 			bad = append(bad, "Inverted is "+abbreviate(inv)+", expected the test of the first character after the brackets ("+wantInv+")")
 		}
 	}
@@ -497,7 +505,6 @@ func classFlagsN(c *Ctx, rule string) {
 	}
 	r.Check(len(bad) == 0, rule, "G.ast.CharClassMatcher.parse:i-suffix-and-^-prefix", "", g.Where(cp.fd.Pos()), "IgnoreCase = has suffix i; Inverted = starts with ^ (after removing the brackets)", strings.Join(uniq(bad), "; "))
 }
-
 
 func isDigits(s string) bool {
 	if s == "" {
@@ -509,4 +516,95 @@ func isDigits(s string) bool {
 		}
 	}
 	return true
+}
+
+var bufCallRe = regexp.MustCompile(`^((?:\$\d+|[A-Za-z_]\w*)(?:\.[A-Za-z_]\w*)*)\.(Reset|Truncate|Write|WriteRune|WriteString|WriteByte|String|Bytes|Len)\((.*)\)$`)
+
+// scratchBuffersClean: over the paths of one loop iteration, every buffer object (receiver of Write* calls) that is
+// read back (String/Bytes) is clean when the iteration starts writing to it: either the path resets it (Reset,
+// Truncate(0)) or declares it before its first write, or every iteration path leaves it reset (then it is clean at the
+// start of every iteration, by induction from the empty buffer declared before the loop).
+func scratchBuffersClean(iter []bpath) (int, []string) {
+	type use struct {
+		needsClean bool // first write/read of the path comes before any reset
+		endsClean  bool // last event of the buffer on the path is a reset (or the path does not touch it)
+		where      string
+	}
+	objs := map[string]bool{}
+	for _, p := range iter {
+		for _, e := range p {
+			if e.Kind == "call" {
+				if m := bufCallRe.FindStringSubmatch(e.Text); m != nil && strings.HasPrefix(m[2], "Write") {
+					objs[m[1]] = true
+				}
+			}
+		}
+	}
+	var bad []string
+	var names []string
+	for o := range objs {
+		names = append(names, o)
+	}
+	sort.Strings(names)
+	n := 0
+	for _, o := range names {
+		var uses []use
+		read := false
+		for _, p := range iter {
+			u := use{endsClean: true}
+			clean, touched := false, false
+			for _, e := range p {
+				switch e.Kind {
+				case "set":
+					if strings.HasPrefix(e.Text, o+"=") {
+						clean, touched = true, false
+						u.endsClean = true
+					}
+				case "call":
+					m := bufCallRe.FindStringSubmatch(e.Text)
+					if m == nil || m[1] != o {
+						continue
+					}
+					switch {
+					case m[2] == "Reset", m[2] == "Truncate" && m[3] == "0":
+						clean = true
+						u.endsClean = true
+					case m[2] == "Len":
+					default:
+						if m[2] == "String" || m[2] == "Bytes" {
+							read = true
+						}
+						if !clean && !touched {
+							u.needsClean = true
+							u.where = abbreviate(strings.Join(p.facts(), " "))
+						}
+						if strings.HasPrefix(m[2], "Write") {
+							touched = true
+							u.endsClean = false
+						}
+					}
+				}
+			}
+			uses = append(uses, u)
+		}
+		if !read {
+			continue // written only (an output stream, not a scratch accumulator read back by the loop)
+		}
+		n++
+		allEndClean := true
+		for _, u := range uses {
+			if !u.endsClean {
+				allEndClean = false
+			}
+		}
+		if allEndClean {
+			continue
+		}
+		for _, u := range uses {
+			if u.needsClean {
+				bad = append(bad, "buffer "+o+" is written and read back on the path ["+u.where+"] without being reset first, and other iterations leave their runes in it: the member read there begins with the leftovers of an earlier escape")
+			}
+		}
+	}
+	return n, bad
 }
